@@ -876,9 +876,13 @@ def execute(plan):
                 probe('denotation_mismatch_unwitnessed')
             rec = [op['k'], changed,
                    fn_json(slots[changed][1]) if changed in slots else None,
-                   eqm if len(eqm) <= 40 else len(eqm), len(slots), nlive]
+                   eqm if len(eqm) <= 40 else len(eqm), len(slots)]
+            # the live-node count is shown but not digested: with cyclic
+            # garbage pending it depends on where a mid-operation collection
+            # lands, which follows line-event counts inside address-ordered
+            # WeakSet scans (node hashes are addresses)
             step_digests.append(core.digest(rec))
-            tail.append(rec)
+            tail.append(rec + [nlive])
             if len(tail) > 3:
                 tail.pop(0)
         # J5 (diagnostic only): nothing but terminals survives
